@@ -4,7 +4,7 @@ import os
 from . import s2e, tlc
 from .common import ToolError
 
-FIELDS = ("ev", "ph", "tid", "kind", "path", "region", "ret", "errno", "acc", "trunc", "src")
+FIELDS = ("ev", "ph", "tid", "kind", "path", "region", "ret", "errno", "acc", "trunc", "creat", "src")
 
 def classifier(root, src_prefixes, dst_prefixes):
     root = root.rstrip("/")
@@ -37,7 +37,7 @@ def records(run_id, trace_path, root, src_prefixes, dst_prefixes, cfg, exit_code
         if p and (p == root or p.startswith(root + "/")):
             return p[len(root) + 1:] or "."
         return p or ""
-    out = [{"ev": "reset", "run": run_id, "fsync": bool(cfg.get("fsync")), "reflink": cfg.get("reflink", "auto"),
+    out = [{"ev": "reset", "run": run_id, "driver": cfg.get("driver", ""), "fsync": bool(cfg.get("fsync")), "reflink": cfg.get("reflink", "auto"),
             "protected": list(protected), "special": list(special), "peakBase": peak_base, "fdSlack": fd_slack}]
     n = 0
     for e in s2e.events(trace_path, cl):
@@ -77,6 +77,15 @@ def judge(all_records, nruns, chunk_events=150000):
     flush()
     return verdicts, stats
 
+def life_judge(all_records):
+    """Layer-A life-cycle replay (TraceA_Life) of the same records; returns list of {run, drift, files} per run."""
+    flat = [r for rs in all_records for r in rs]
+    m = tlc.monitor("TraceA_Life", "TraceA_Life.cfg", flat, timeout=3000, xmx="8g", tag="LIFE")
+    vs = [v for t, v in m.printed if t == "LIFE"]
+    if len(vs) != len(all_records):
+        raise ToolError("TraceA_Life produced %d verdicts for %d runs\n%s" % (len(vs), len(all_records), m.out[-2000:]))
+    return vs, m
+
 # ------------------------------------------------------------------ traced tree runs
 def traced_tree_run(binary, sc, driver, run_id, cfg, plan=None, workers=None, special=(), protected=(), peak_base=-1, fd_slack=0,
                     inject=None, timeout=120, src_prefixes=None, dst_prefixes=("d",), nofile=None, extra_strace=None):
@@ -91,6 +100,7 @@ def traced_tree_run(binary, sc, driver, run_id, cfg, plan=None, workers=None, sp
         st["inject"] = inject
     if extra_strace:
         st["extra"] = extra_strace
+    cfg = dict(cfg, driver=driver)
     o = nsplane.run_one(binary, sc, driver, run_id, strace=st, workers=workers, env=env, keep=True, timeout=timeout)
     srcs = src_prefixes or sorted({a["norm"][0] for a in sc["sources"] if a["norm"] and a["norm"][0] not in (".", "/ABS")} or {"s"})
     recs, n = records(run_id, o["_run"]["trace"], o["_run"]["root"], srcs, list(dst_prefixes), cfg, o["exit"], protected=protected,
